@@ -32,18 +32,20 @@ prop("C06",
      theorems=["C06_total_no_panic", "C06_total", "C06_arith_exact", "C06_never_wrapped", "C06_ill_typed_is_error",
                "C06_well_typed_iff", "C06_well_typed_result", "C06_result_type", "C06_unary_table", "C06_set_ops", "C06_set_ops_no_repeats",
                "C06_string_ops", "C06_postfix", "C06_ok_is_postfix", "C06_malformed_is_error",
-               "C06_every_operator_has_an_evaluator_arm"],
+               "C06_every_operator_has_an_evaluator_arm", "C06_eval_index_level", "C06_index_equality_is_string_equality"],
      trusted=["Go's regexp is not modelled: Section variable rx (pattern, subject -> option bool); the theorems hold for every rx",
               "the model evaluates resolved (S-level) values: string terms carry their contents; symbol-table interning of "
               "concatenation results is covered by the correspondence (results compared after resolution)",
               "integers are Z, dates N in the model; that operands are 64-bit is a property of their producers (decoder, parser)"],
      assumptions=["every error other than DivZero/Overflow/Regex/UnknownVar is one class (IllTyped) in the model and in the comparison"])
 
-AUTHZ_DEPS = ["Base.v", "Term.v", "Expr.v", "Datalog.v", "Authz.v", "Corr.v", "AuthzProofs.v", "Generated.v"]
+AUTHZ_DEPS = ["Base.v", "Term.v", "Expr.v", "Datalog.v", "Authz.v", "Corr.v", "AuthzProofs.v", "Generated.v", "DEval.v", "CorrD.v", "DEvalProofs.v", "DTerm.v", "Symbols.v", "Wire.v", "Token.v", "Chain.v", "SymbolsProofs.v"]
 AUTHZ_TRUSTED = ["Go's regexp is not modelled (Section variable rx; theorems hold for every rx)",
-                 "S-level model: string terms and names carry their contents; the token's blocks are resolved at their own position. "
-                 "The D-level re-interning through two symbol tables (authorizer.go:120-134) is covered by the correspondence, which "
-                 "compares verdict, failed-check list, the world's ORDERED fact list and query results after resolution",
+                 "the property theorems are stated over the S-level model (string terms and names carry their contents); the INDEX-level "
+                 "behaviour of the code (token content re-interned into the authorizer's table, evaluation over indexes, concatenation "
+                 "interning its result: Model/DEval.v) is PROVED to refine to it (Properties/C04_index_level.v, C05_index_level.v, "
+                 "C06_index_level.v; hypothesis: table below 2^32 entries) and both models are run against the implementation on every "
+                 "case (verdict, failed-check list, the world's ORDERED fact list, query results)",
                  "wall-clock timeout not modelled (harness uses a 20 s maxDuration)"]
 prop("C02", coq_deps=AUTHZ_DEPS + ["TokenProofs.v", "SymbolsProofs.v", "WireProofs.v", "Token.v", "Wire.v", "Symbols.v", "DTerm.v", "Chain.v", "History.v"],
      theorems=["C02_monotone", "C02_no_content_helps", "C02_exact_effect", "C02_prefix_cases", "C02_token_attenuation", "C02_parent_content_unchanged"],
@@ -56,7 +58,8 @@ prop("C03", coq_deps=AUTHZ_DEPS + ["TokenProofs.v", "SymbolsProofs.v", "WireProo
      trusted=AUTHZ_TRUSTED, assumptions=[])
 prop("C04", coq_deps=AUTHZ_DEPS + ["DatalogProofs.v", "OrderProofs.v"],
      theorems=["C04_verdict_structure", "C04_success_iff", "C04_precedence", "C04_decision", "C04_first_match", "C04_no_match",
-               "C04_or_is_disjunction", "C04_run_error_wins", "C04_worlds_are_least_models", "C04_verdict_spec"],
+               "C04_or_is_disjunction", "C04_run_error_wins", "C04_worlds_are_least_models", "C04_verdict_spec",
+               "C04_authorize_index_level", "C04_query_index_level", "C04_histories_index_level"],
      trusted=AUTHZ_TRUSTED, assumptions=["the scopes' worlds are the run results; that a run result is the least model (up to Predicate.Equal) is C05_least_model; "
                                          "no hypothesis about sets"])
 prop("C13", coq_deps=AUTHZ_DEPS,
@@ -67,7 +70,7 @@ prop("C05", coq_deps=["Base.v", "Term.v", "Expr.v", "Datalog.v", "Corr.v", "Data
      theorems=["C05_run_sound", "C05_run_complete", "C05_least_model", "C05_least_model_setfree", "C05_derivable_is_least",
                "C05_query_exact", "C05_query_sound", "C05_order_free", "C05_order_free_equal", "C05_world_only_grows",
                "C05_equal_is_equivalence", "C05_operators_respect_equal", "C05_set_operators_respect_equal", "C05_trel_is_equal",
-               "C05_odometer_refines"],
+               "C05_odometer_refines", "C05_run_index_level", "C05_query_index_level"],
      trusted=["Go's regexp is not modelled (Section variable rx)",
               "the join enumeration is modelled declaratively (combos: lexicographic index tuples pruned by Match); the literal index "
               "machine of combine/advanceIndexes is tied by the ORDERED correspondence (World.Facts() and QueryRule results compared as "
